@@ -48,12 +48,13 @@ package isobmff
 //@   ensures pos(b.reader.br) == old(pos(b.reader.br))
 //@   ensures [C11] r1 == nil ==> len(r0) == n && n >= 0 && n <= b.remain
 //@   ensures r1 != nil ==> len(r0) < n || n < 0 || len(r0) == 0
-//@   ensures arr(r0) == sid(b.reader.br) && off(r0) == pos(b.reader.br) && cap(r0) >= len(r0) && len(r0) >= 0
+//@   ensures r1 == nil ==> arr(r0) == sid(b.reader.br) && off(r0) == pos(b.reader.br)
+//@   ensures cap(r0) >= len(r0) && len(r0) >= 0
 
 //@ func (*box).Discard
 //@   props C01 C02 C11
 //@   requires wf4(b) && n >= 0
-//@   modifies stream(b.reader.br), box.remain, Reader.offset
+//@   modifies stream(b.reader.br), b.remain, b.outer.remain, b.outer.outer.remain, b.outer.outer.outer.remain, b.outer.outer.outer.outer.remain, b.reader.offset
 //@   decreases clen4(b)
 //@   ensures 0 <= r0 && r0 <= n && pos(b.reader.br) == old(pos(b.reader.br)) + r0
 //@   ensures r1 == nil ==> r0 == n
@@ -64,7 +65,7 @@ package isobmff
 //@ func (*box).close
 //@   props C01 C02 C11
 //@   requires wf4(b)
-//@   modifies stream(b.reader.br), box.remain, Reader.offset
+//@   modifies stream(b.reader.br), b.remain, b.outer.remain, b.outer.outer.remain, b.outer.outer.outer.remain, b.outer.outer.outer.outer.remain, b.reader.offset
 //@   ensures [C11] r0 == nil ==> b.remain == 0 && pos(b.reader.br) == old(pos(b.reader.br)) + old(b.remain)
 //@   ensures pos(b.reader.br) >= old(pos(b.reader.br))
 //@   ensures wf4(b)
